@@ -1,5 +1,6 @@
 import Abyss.Props.C02
 import Abyss.Check
+import Abyss.Lemmas.CheckL
 /-!
 # C05 — the on-disk files always decode to a consistent structure
 -/
@@ -32,7 +33,16 @@ theorem C05_structure {kt : KeyType} {s : Store} (h : Inv kt s) :
     -- every key record refers to its own in-bounds value record
     (∀ o sz r, s.kf.used o = some (sz, r) → ∃ vs v, s.vf.used r.valOff = some (vs, v) ∧ r.valOff + vs ≤ s.vf.end_) ∧
     (∀ o o' sz sz' r r', s.kf.used o = some (sz, r) → s.kf.used o' = some (sz', r') → r.valOff = r'.valOff → o = o') := by
-  sorry
+  refine ⟨?_, h.keys_inj, (abs_len h).symm, ?_, h.bits_ok, ?_, h.val_inj⟩
+  · intro b hb
+    obtain ⟨l, hl, hn, hp⟩ := h.chains b hb
+    exact ⟨l, hl, hn, fun p hm => (hp p hm).1⟩
+  · intro o sz r hu
+    exact h.on_chain o sz r hu (used_ne_zero h hu)
+  · intro o sz r hu
+    obtain ⟨vs, v, hv⟩ := h.val_used o sz r hu
+    have := (RecFile.WF.get_bounds valCfg_ok h.vwf (get_of_used _ _ _ _ hv)).2.1
+    exact ⟨vs, v, hv, this⟩
 
 /-- consequently an independent reader of the format recovers exactly the map's contents -/
 theorem C05_reader {kt : KeyType} {s : Store} (h : Inv kt s) (hr : Renderable kt s) :
@@ -44,7 +54,7 @@ theorem C05_reader {kt : KeyType} {s : Store} (h : Inv kt s) (hr : Renderable kt
 
 /-- soundness of the executable checker that the correspondence runs apply to the Lean reader's
 output on the implementation's real files: if it reports nothing, the invariant holds -/
-theorem C05_checkInv_sound (kt : KeyType) (s : Store) (h : s.checkInv kt = none) : Inv kt s := by
-  sorry
+theorem C05_checkInv_sound (kt : KeyType) (s : Store) (h : s.checkInv kt = none) : Inv kt s :=
+  Store.checkInv_sound kt s h
 
 end Abyss
